@@ -23,3 +23,10 @@ check("C02", "model_checking", "stateless model checking of the real Scheduler r
 check("C11", "model_checking", "stateless model checking of the real Scheduler with runner-count / one-per-model / reuse / eviction-order / memory-fit monitors",
       "Same executions plus configuration scenarios (MAX_LOADED 1/2/unset, tight GPU memory found by bisection on the real estimator, two GPUs, CPU mode): live runners <= limit, <=1 per model, granted runner's start options match the request, compatible loaded runner reused and idle shortest-keep-alive victim chosen (sequential scenarios, judged only while no keep-alive can have expired), new runner next to loaded ones only on GPUs where PredictServerFit holds for the memory they leave.",
       _sched_note, "DESIGN.md 3/C11", "mcrt")
+
+ENGINES += [
+ {"name": "fakeml", "path": "engine/fakeml", "serves_properties": ["C06", "C07", "C14"], "kind_free_text": "in-memory ml.Backend with aliasing views (byte offsets/strides as ggml), lazy graph semantics (Forward/Compute, node limit)"},
+]
+check("C06", "model_checking", "explicit-state breadth-first search over cache-operation histories of the real kvcache.Causal with a dictionary reference model",
+      "For every configuration of a grid (sequences, capacity, batch, cache/mask padding, window, permuted V, shift fn, graph-node limit) every history of Forward / CopyPrefix / Resume(CanResume+truncate) / middle-range Remove up to the stated depth is executed on the real Causal cache (states cloned in-package, deduplicated on a canonical fingerprint of all cells, ranges and stored data). After every Forward the (key,value,mask) the cache returns is decoded per batch token and layer and compared with the reference history set exactly (nothing missing, nothing extra, right position after shifts, padding masked); cache-full errors only when the reference says so.",
+      "Go toolchain; fakeml backend semantics (views alias, copies run in forward order); driver follows the documented Cache contract; small scope: <=3 sequences, capacity <=6, depth as in evidence.", "DESIGN.md 3/C06", "fakeml")
